@@ -565,7 +565,7 @@ PROP_HARNESS = {
     "C12": ["conv__"],
     "C13": ["bytes__"],
     "C14": ["fmt__"],
-    "C15": ["parse__"],
+    "C15": ["parse__", "parsek__"],
     "C16": ["cnt__"],
     "C17": ["iter__"],
     "C18": ["cap__", "edit__bvd", "edit__bv", "extend__bv"],
@@ -796,8 +796,16 @@ MANIFEST_TEXT["C12"] = dict(
           "The slice-level get_int (unsafe align_to / word-combining loop in utils.rs) is a trusted contract (T2). " + TRUST_NOTE))
 dyn_only("C13", "to_vec/write/from_bytes/read for both endiannesses incl. surplus bits, short input, capacity errors and round trips.", "from_bytes (enumerate/rev iterator adapters) and read/write (io traits, `?`) are outside what Verus takes; D3 was found and fixed. ONE direction IS verified on every run of this check: to_vec of Bvf, Bvd and Bv "
          "(exactly ceil(len/8) bytes; Little: bit t of byte j is bit 8j+t of the vector, surplus bits of the top byte zero; Big: the same bytes reversed) - units bvf.to_vec, bvd.to_vec, bv.to_vec; a definite failure there is reported as a violation of this property.")
-dyn_only("C14", "Display/Binary/Octal/LowerHex/UpperHex under 15 format specifications against Rust's formatting of the u128 value.", "Formatter units (pad_integral model) not yet written.")
-dyn_only("C15", "from_binary/from_hex over random strings from an alphabet with valid digits, invalid ASCII and a non-ASCII character (accept set, length, first bad index, capacity error) and parse(format(v)) == v; Bv on both sides of the inline limit.", "Parsing loops are driven by str::chars().enumerate(): outside Verus's front end (DESIGN 2.2); bounded/random is the planned level.")
+dyn_only("C14", "Display/Binary/Octal/LowerHex/UpperHex under 21 format specifications against Rust's formatting of the u128 value.",
+         "CONTRACT-BASED VERIFICATION DOES NOT REACH THIS PROPERTY with the installed tools: the digit strings are built with String/Vec<char>/iterator-adapter chains (`s.iter().rev().collect::<String>()`), "
+         "Display runs div_rem in a loop with char::from_digit, and the observable result goes through core::fmt::Formatter::pad_integral, for which vstd has neither a model nor a hook; a contract would have to ASSUME the "
+         "whole formatting back end (T4) and the String API. This check is therefore NOT a proof and not a bounded-exhaustive stand-in either (CBMC cannot take core::fmt at useful bounds): it is the executable contract run on "
+         "seeded random inputs, kept because it finds real defects (the seeded changes C14-a/b) and labelled exploration. What IS proved and feeds formatting: div_rem (C02), significant_bits (C16), the conversions to integers (C11).")
+dyn_only("C15", "from_binary/from_hex over random strings from an alphabet with valid digits, invalid ASCII and a non-ASCII character (accept set, length, first bad index, capacity error) and parse(format(v)) == v; Bv on both sides of the inline limit.",
+         "CONTRACT-BASED VERIFICATION DOES NOT REACH THIS PROPERTY with the installed tools: both parsers are single loops over `string.as_ref().chars().enumerate()` (UTF-8 decoding iterator + adapter), which Verus's front end rejects, "
+         "and `char::to_digit`. A bounded stand-in was tried and is NOT available either: Kani/CBMC on from_binary/from_hex of Bvf<u8,2> over every string of up to 2 characters from a 6-symbol alphabet (stack buffer, no String) did not finish "
+         "in 13 minutes (UTF-8 decoding + enumerate under CBMC). What runs is the executable contract on seeded random strings (up to 20 characters; valid digits, invalid ASCII, a two-byte character; all implementations; "
+         "the small-string harness parsek__f82 is run natively on random draws too): exploration, never counted as proved.")
 MANIFEST_TEXT["C17"] = dict(
     text=("Proof: the real bodies of BitIterator::{new, next, size_hint, count, last, nth, next_back, nth_back} (iter.rs), instantiated for Bvf<I,N>, Bvd and Bv, are verified against an abstract view "
           "`remaining()` = the bits range.start..range.end of the vector front to back, under the invariant start <= end <= len: next/next_back return and remove the first/last remaining bit, nth(n)/nth_back(n) return "
